@@ -205,10 +205,7 @@ func evalCall(ee *exprEval, assign Scope, x *sysl.Expr_Call_) *sysl.Value {
 			// TODO: Add type checks
 			callScope[params[i].Name] = Eval(ee, assign, argExpr)
 		}
-		if callTransform.Expr.Type == nil {
-			callTransform.Expr.Type = callTransform.RetType
-		}
-		return Eval(ee, callScope, callTransform.Expr)
+		return Eval(ee, callScope, viewBody(callTransform))
 	} else if strings.HasPrefix(x.Call.Func, ".") {
 		switch x.Call.Func[1:] {
 		case "count":
@@ -338,7 +335,7 @@ func EvaluateApp(app *sysl.Application, view *sysl.View, s Scope) *sysl.Value {
 		ee.dbg = NewREPL(os.Stdin, os.Stdout)
 	}
 
-	val, err := ee.eval(s, view.Expr)
+	val, err := ee.eval(s, viewBody(view))
 	logrus.Tracef("EvaluateApp val: %s", val.String())
 	if err != nil {
 		logrus.Panic(err.Error())
@@ -350,11 +347,22 @@ func EvaluateApp(app *sysl.Application, view *sysl.View, s Scope) *sysl.Value {
 func EvaluateView(mod *sysl.Module, appName, viewName string, s Scope) *sysl.Value {
 	txApp := mod.Apps[appName]
 	view := txApp.Views[viewName]
-	if view.Expr.Type == nil {
-		view.Expr.Type = view.RetType
-	}
 
 	return EvaluateApp(txApp, view, s)
+}
+
+// viewBody returns the body of a view with its type defaulted to the view's return type. The view itself is not
+// written to: the module is shared by every evaluation.
+func viewBody(view *sysl.View) *sysl.Expr {
+	if view.Expr.Type != nil {
+		return view.Expr
+	}
+	return &sysl.Expr{
+		Expr:           view.Expr.Expr,
+		Type:           view.RetType,
+		SourceContext:  view.Expr.SourceContext, //nolint:staticcheck
+		SourceContexts: view.Expr.SourceContexts,
+	}
 }
 
 type exprEval struct {
